@@ -4,7 +4,7 @@ EXTENDS PongoDoc, Json
 CONSTANTS CtlText,   \* TRUE: literal text made of control bytes and white space (what is white space for trimming: SP TAB CR LF only)
           MaxFrags, Quick, Layout   \* Layout: TRUE = dashes and options vary (C15); FALSE = plain documents only (C06)
 
-WS == IF Quick THEN {<<32>>, <<10>>, <<32, 10, 9>>, <<13, 10>>, <<10, 10>>, <<10, 32, 10>>}      \* (incl. blank lines between tag-only lines)
+WS == IF Quick THEN {<<32>>, <<10>>, <<32, 10, 9>>, <<13, 10>>, <<9, 13>>, <<10, 10>>, <<10, 32, 10>>}      \* (incl. blank lines between tag-only lines)
                ELSE {<<32>>, <<9>>, <<10>>, <<13, 10>>, <<32, 10, 9, 32>>, <<10, 10>>, <<32, 32>>, <<9, 13>>, <<10, 32, 10>>}
 B == BOOLEAN
 F(k, b, l, r) == [k |-> k, b |-> b, l |-> l, r |-> r]
